@@ -54,6 +54,11 @@ fn exec(w: &mut Worker, step: &str) -> String {
         ["LOAD", k] => { let k = k.parse::<usize>().unwrap(); w.loads += 1;
             let id = if w.loads % 2 == 0 { *w.slot = CachedInternedStringId::new(KEYS[k]); w.slot.load() } else { CACHED[k].load() };
             let n: usize = unsafe { std::mem::transmute_copy(&id) }; format!("ID {}", n) }
+        // API-level interning (Context::intern_utf8_str / Value::intern_utf8_str alternate): the glue requests the
+        // destination and copies at once; the same few key strings are used by every thread
+        ["AINTERN", h] => { let b = unhex(h); let st = String::from_utf8_lossy(&b).into_owned(); w.loads += 1;
+            let id = if w.loads % 2 == 0 { shopify_function_wasm_api::Context.intern_utf8_str(&st) } else { shopify_function_wasm_api::Context.input_get().map(|v| v.intern_utf8_str(&st)).unwrap_or_else(|_| shopify_function_wasm_api::Context.intern_utf8_str(&st)) };
+            let n: usize = unsafe { std::mem::transmute_copy(&id) }; format!("ID {}", n) }
         ["FIN"] => { let (r, b) = provider::write::shopify_function_output_finalize_and_return_msgpack_bytes(); format!("FIN {} {}", r as usize, c03::digest(&b)) }
         ["VIEW"] => { let (buf, base, cap, wd) = provider::log::verif_log_view();
             let seg = |p: usize, l: usize| -> Option<Vec<u8>> { if l == 0 { Some(vec![]) } else if p < base || p - base + l > cap { None } else { Some(buf[p - base..p - base + l].to_vec()) } };
@@ -130,7 +135,8 @@ pub fn script(r: &mut Rng, n: usize, interned: &mut usize, cap: usize, own_ids_o
             5 => if *interned > base { s.push(format!("ISTR {}", base as u64 + r.below((*interned - base) as u64))); },
             6 => if *interned > base && reads > 0 { s.push(format!("RIPROP 0 {}", base as u64 + r.below((*interned - base) as u64))); reads += 1; },
             7 => { let l = *r.pick(&[0usize, 1, 2, 5, 31, 32, 300]); s.push(format!("STRDEST {}", l)); s.push(format!("STRCOPY {}", bytes(r, l))); }
-            8 => if !own_ids_only { for _ in 0..(1 + r.below(3)) { let k = r.below(KEYS.len() as u64); s.push(format!("LOAD {}", k)); } },
+            8 => if !own_ids_only { for _ in 0..(1 + r.below(3)) { let k = r.below(KEYS.len() as u64);
+                if r.chance(40) { s.push(format!("AINTERN {}", hex(KEYS[k as usize].as_bytes()))); *interned += 1; } else { s.push(format!("LOAD {}", k)); } } },
             9 => { let l = *r.pick(&[0usize, 1, 2, 2]); if r.chance(50) { s.push(format!("W SOBJ {}", l)); depth.push((true, l, 0)); } else { s.push(format!("W SARR {}", l)); depth.push((false, l, 0)); } }
             10 => { s.push(match depth.pop() { Some((true, ..)) => "W FOBJ".to_string(), Some((false, ..)) => "W FARR".to_string(), None => if r.chance(50) { "W FOBJ".into() } else { "W FARR".into() } }); }
             11 => s.push(format!("W {}", r.pick(&["NULL", "BOOL 1", "I32 -7", "I32 70000", "F64 3ff8000000000000", "STR 6b30"]))),
@@ -217,6 +223,13 @@ pub fn run(a: &Args, out: &mut Out, kind: &str) {
                     for t in il { sched.push((t + 1, scripts[t][pos[t]].clone())); pos[t] += 1; }
                     run_one(out, &mut iso, &mut id, sched);
                 }
+            }
+            // both threads intern the same key strings through the API in different orders, then write by the ids they got
+            for (a, b) in [("foo", "bar"), ("k0", "title")] {
+                let w = vec![(1usize, "INIT c0".to_string()), (2, "INIT c0".into()), (1, format!("AINTERN {}", hex(a.as_bytes()))), (2, format!("AINTERN {}", hex(b.as_bytes()))),
+                    (2, format!("AINTERN {}", hex(a.as_bytes()))), (1, format!("AINTERN {}", hex(b.as_bytes()))), (1, "W SARR 2".into()), (1, "ISTR 0".into()), (1, "ISTR 1".into()), (1, "W FARR".into()),
+                    (2, "W SARR 2".into()), (2, "ISTR 0".into()), (2, "ISTR 1".into()), (2, "W FARR".into()), (1, "OUT".into()), (2, "OUT".into())];
+                run_one(out, &mut iso, &mut id, w);
             }
             // the known-bad shape: T1 plan, T2 plan, T1 copy
             let w = vec![(1usize, "INIT c0".to_string()), (2, "INIT c0".into()), (1, "LOGPLAN 3".into()), (2, "LOGPLAN 5".into()), (1, format!("LOGCOPY {}", hex(b"ABC"))), (1, "VIEW".into()), (2, "VIEW".into())];
